@@ -93,6 +93,12 @@ CHECKS = {
    text="Parameterised constructors with symbolic parameters equal their closed forms (Werner scalar and list forms, isotropic, Horodecki, Gisin, Breuer, chessboard, GHZ / W coefficient forms); PPT thresholds of Werner / isotropic / "
         "Horodecki states by eigen-certificates decided in (non)linear arithmetic; parameter-free constructors, run by the real code over exact algebraic numbers, satisfy their defining identities for every index pair / dimension in the bound "
         "(Bell / generalised Bell bases, maximally entangled marginals, GHZ / W / Dicke support and symmetry, tile / domino product bases, MUBs, Pauli / Gell-Mann families, Weyl relation, Fourier intertwiner, Hadamard / CNOT / cyclic shift)."),
+ "C08": dict(engine="symnp + sdpcap", category="other", design_ref="DESIGN.md §3 C08, §2.2",
+   technique="symbolic execution of the XOR-game glue (conversion, classical value with symbolic distribution, constructor validation, return formula) with z3; capture of the cvxpy programs of quantum_value and bell_inequality_max and z3 proof of equality with the reference programs for all decision-variable values",
+   note=NOTE_E1 + "; cvxpy evaluation trusted for extraction; instance data of the captured programs is concrete (dyadic); the conic solver is trusted",
+   text="XOR game: converted predicate is [f = a xor b]; classical value = max over +-1 assignments for every 0/1 predicate of the enumerated shapes and every distribution (symbolic), equal between the XOR game and its conversion; "
+        "constructor rejects exactly invalid distributions; quantum_value = (dual optimum / 4 + 1/2)^reps and its program is Tsirelson's dual SDP; bell_inequality_max's program (m = 2, +-1 and 0/1 outcomes, marginal terms) has the stated "
+        "trace / PSD / PPT constraints and the Bell-operator objective rebuilt from the oracle's own index maps."),
 }
 NOT_BUILT = "check not built yet in this round (planned per DESIGN.md §3); nothing is claimed"
 NA = {f"C{i:02d}": NOT_BUILT for i in range(1, 21) if f"C{i:02d}" not in CHECKS}
